@@ -37,28 +37,6 @@ Section Parser.
   Variable fast : bool.                    (* feature fast-float-parsing *)
   Variable std_parse : N -> Z -> f64.      (* str::parse::<f64> *)
 
-  (* run m, handing back its result instead of propagating a parse error;
-     model artefacts (fuel, panic) still propagate *)
-  Definition attempt {A} (m : M A) : M (res A) :=
-    fun s => match m s with
-             | (Err EFuel, s') => (Err EFuel, s')
-             | (Err (EPanic k), s') => (Err (EPanic k), s')
-             | (r, s') => (Ok r, s')
-             end.
-  Definition lift {A} (r : res A) : M A :=
-    match r with Ok a => ret a | Err e => fail e end.
-
-  (* self.remaining_depth -= 1 (u8: a debug build panics on underflow) *)
-  Definition dec_depth : M unit :=
-    d <- get_depth ;; if d =? 0 then panic 1 else set_depth (d - 1).
-  Definition inc_depth : M unit :=
-    d <- get_depth ;; if 255 <=? d then panic 2 else set_depth (d + 1).
-  (* the nesting prologue shared by lists, vectors and quotations *)
-  Definition enter_nesting : M unit :=
-    dec_depth ;;;
-    d <- get_depth ;;
-    if d =? 0 then inc_depth ;;; peek_error RecursionLimitExceeded else ret tt.
-
   (* parse_whitespace *)
   Fixpoint skip_comment (fuel : nat) : M bool :=   (* true: newline found; false: end of input *)
     match fuel with
@@ -167,9 +145,9 @@ Section Parser.
   (* The digit-initial arm with leading_digit_symbols: the symbol text is fed
      to a fresh slice parser; a number only if all of it is consumed. *)
   Definition number_of_symbol (fuel : nat) (symbol : bytes) : option number :=
-    let s0 := {| rd := mk_reader SrcSlice (bytes_events symbol); depth := initial_depth |} in
+    let s0 := mk_reader SrcSlice (bytes_events symbol) in
     match parse_num_literal fast std_parse fuel 10 true s0 with
-    | (Ok n, s1) => match r_peek (rd s1) with
+    | (Ok n, s1) => match r_peek s1 with
                     | (Ok None, _) => Some n
                     | _ => None
                     end
@@ -254,7 +232,7 @@ Section Parser.
       name <- parse_symbol fuel ;; ret (symbol_token name)
     else
       (fun s => let '(r, s') := peek_error (A := token) ExpectedSomeValue s in
-                (r, snd (eat_char s'))).
+                (r, r_discard s')).
 
   (* end_seq *)
   Definition end_seq (fuel : nat) (close : N) : M unit :=
@@ -301,125 +279,178 @@ Section Parser.
 
   Definition is_closer (c : N) : bool := (c =? 41) || (c =? 93).
 
+  (* ---- the parser state: reader + remaining_depth ---- *)
+  Record pstate := { rd : reader; depth : N }.
+
+  (* errors of the parser proper: a reader-level error, or a panic site
+     (unwrap/expect/unreachable!/arithmetic overflow in a debug build) *)
+  Inductive xerr := XErr (e : perr) | XPanic (site : N).
+  Inductive pres (A : Type) := POk (a : A) | PErr (e : xerr).
+  Arguments POk {A} a.
+  Arguments PErr {A} e.
+
+  Definition PM (A : Type) := pstate -> pres A * pstate.
+  Definition pret {A} (a : A) : PM A := fun s => (POk a, s).
+  Definition pfail {A} (e : xerr) : PM A := fun s => (PErr e, s).
+  Definition pbind {A B} (m : PM A) (f : A -> PM B) : PM B :=
+    fun s => match m s with
+             | (POk a, s') => f a s'
+             | (PErr e, s') => (PErr e, s')
+             end.
+  (* a reader-level action inside the parser *)
+  Definition liftR {A} (m : M A) : PM A :=
+    fun s => match m (rd s) with
+             | (Ok a, rd') => (POk a, {| rd := rd'; depth := depth s |})
+             | (Err e, rd') => (PErr (XErr e), {| rd := rd'; depth := depth s |})
+             end.
+  Definition get_depth : PM N := fun s => (POk (depth s), s).
+  Definition set_depth (d : N) : PM unit := fun s => (POk tt, {| rd := rd s; depth := d |}).
+  Definition panic {A} (site : N) : PM A := pfail (XPanic site).
+
+  (* run m, handing back its result instead of propagating a parse error;
+     model artefacts (fuel, panic) still propagate *)
+  Definition attempt {A} (m : PM A) : PM (res A) :=
+    fun s => match m s with
+             | (POk a, s') => (POk (Ok a), s')
+             | (PErr (XErr EFuel), s') => (PErr (XErr EFuel), s')
+             | (PErr (XPanic k), s') => (PErr (XPanic k), s')
+             | (PErr (XErr e), s') => (POk (Err e), s')
+             end.
+  Definition lift {A} (r : res A) : PM A :=
+    match r with Ok a => pret a | Err e => pfail (XErr e) end.
+
+  (* self.remaining_depth -= 1 (u8: a debug build panics on underflow) *)
+  Definition dec_depth : PM unit :=
+    pbind get_depth (fun d => if d =? 0 then panic 1 else set_depth (d - 1)).
+  Definition inc_depth : PM unit :=
+    pbind get_depth (fun d => if 255 <=? d then panic 2 else set_depth (d + 1)).
+  (* the nesting prologue shared by lists, vectors and quotations *)
+  Definition enter_nesting : PM unit :=
+    pbind dec_depth (fun _ =>
+    pbind get_depth (fun d =>
+    if d =? 0 then pbind inc_depth (fun _ => liftR (peek_error RecursionLimitExceeded)) else pret tt)).
+
   (* combine (ret, end_seq) as the match on the tuple does *)
-  Definition both {A} (ret_ : res A) (endr : res unit) : M A :=
+  Definition both {A} (ret_ : res A) (endr : res unit) : PM A :=
     match ret_, endr with
-    | Ok a, Ok _ => ret a
-    | Err e, _ => fail e
-    | _, Err e => fail e
+    | Ok a, Ok _ => pret a
+    | Err e, _ => pfail (XErr e)
+    | _, Err e => pfail (XErr e)
     end.
 
+  Notation "x <-- m ;; k" := (pbind m (fun x => k)) (at level 61, m at next level, right associativity).
+  Notation "m ;;;; k" := (pbind m (fun _ => k)) (at level 61, right associativity).
+
   (* next_value, parse_list, parse_vector *)
-  Fixpoint next_value (fuel : nat) : M (option value) :=
+  Fixpoint next_value (fuel : nat) : PM (option value) :=
     match fuel with
-    | O => out_of_fuel
+    | O => pfail (XErr EFuel)
     | S f =>
-        o <- parse_whitespace f ;;
+        o <-- liftR (parse_whitespace f) ;;
         match o with
-        | None => ret None
+        | None => pret None
         | Some peek_b =>
-            tok <- parse_token f peek_b ;;
+            tok <-- liftR (parse_token f peek_b) ;;
             match tok with
-            | TNil => ret (Some Nil)
-            | TNull => ret (Some Null)
-            | TChar c => ret (Some (Char c))
-            | TBool b => ret (Some (Bool b))
-            | TNumber n => ret (Some (Number n))
-            | TSymbol s => ret (Some (Symbol s))
-            | TKeyword s => ret (Some (Keyword s))
-            | TString s => ret (Some (String s))
-            | TBytes b => ret (Some (Bytes b))
-            | TByteVecOpen close => b <- parse_byte_list f close ;; ret (Some (Bytes b))
+            | TNil => pret (Some Nil)
+            | TNull => pret (Some Null)
+            | TChar c => pret (Some (Char c))
+            | TBool b => pret (Some (Bool b))
+            | TNumber n => pret (Some (Number n))
+            | TSymbol s => pret (Some (Symbol s))
+            | TKeyword s => pret (Some (Keyword s))
+            | TString s => pret (Some (String s))
+            | TBytes b => pret (Some (Bytes b))
+            | TByteVecOpen close => b <-- liftR (parse_byte_list f close) ;; pret (Some (Bytes b))
             | TVecOpen close =>
-                enter_nesting ;;;
-                r <- attempt (parse_vector f close []) ;;
-                inc_depth ;;;
-                e <- attempt (end_seq f close) ;;
-                els <- both r e ;;
-                ret (Some (Vector els))
+                enter_nesting ;;;;
+                r <-- attempt (parse_vector f close []) ;;
+                inc_depth ;;;;
+                e <-- attempt (liftR (end_seq f close)) ;;
+                els <-- both r e ;;
+                pret (Some (Vector els))
             | TListOpen close =>
-                enter_nesting ;;;
-                r <- attempt (parse_list f close []) ;;
-                inc_depth ;;;
-                e <- attempt (end_seq f close) ;;
-                l <- both r e ;;
-                ret (Some l)
+                enter_nesting ;;;;
+                r <-- attempt (parse_list f close []) ;;
+                inc_depth ;;;;
+                e <-- attempt (liftR (end_seq f close)) ;;
+                l <-- both r e ;;
+                pret (Some l)
             | TQuotation name =>
-                enter_nesting ;;;
-                r <- attempt (next_value f) ;;
-                inc_depth ;;;
-                o <- lift r ;;
+                enter_nesting ;;;;
+                r <-- attempt (next_value f) ;;
+                inc_depth ;;;;
+                o <-- lift r ;;
                 match o with
-                | Some d => ret (Some (vlist [Symbol name; d]))
-                | None => peek_error EofWhileParsingList
+                | Some d => pret (Some (vlist [Symbol name; d]))
+                | None => liftR (peek_error EofWhileParsingList)
                 end
             end
         end
     end
-  with parse_list (fuel : nat) (terminator : N) (acc : list value) : M value :=
+  with parse_list (fuel : nat) (terminator : N) (acc : list value) : PM value :=
     match fuel with
-    | O => out_of_fuel
+    | O => pfail (XErr EFuel)
     | S f =>
-        o <- parse_whitespace f ;;
+        o <-- liftR (parse_whitespace f) ;;
         match o with
-        | None => peek_error EofWhileParsingList
+        | None => liftR (peek_error EofWhileParsingList)
         | Some c =>
             if is_closer c then
-              (if negb (c =? terminator) then peek_error MismatchedParenthesis
-               else ret (build acc Null))
+              (if negb (c =? terminator) then liftR (peek_error MismatchedParenthesis)
+               else pret (build acc Null))
             else if c =? 46 then
-              eat_char ;;;
-              nx <- peek_or_null ;;
+              nx <-- liftR (eat_char ;;; peek_or_null) ;;
               if (nx =? 0) || is_delimiter nx then
                 match acc with
-                | [] => peek_error ExpectedSomeValue
+                | [] => liftR (peek_error ExpectedSomeValue)
                 | _ =>
-                    ov <- next_value f ;;
+                    ov <-- next_value f ;;
                     match ov with
-                    | None => peek_error EofWhileParsingValue
+                    | None => liftR (peek_error EofWhileParsingValue)
                     | Some cdr =>
-                        o2 <- parse_whitespace f ;;
+                        o2 <-- liftR (parse_whitespace f) ;;
                         match o2 with
-                        | Some c2 => if c2 =? terminator then ret (build acc cdr)
-                                     else peek_error TrailingCharacters
-                        | None => peek_error EofWhileParsingList
+                        | Some c2 => if c2 =? terminator then pret (build acc cdr)
+                                     else liftR (peek_error TrailingCharacters)
+                        | None => liftR (peek_error EofWhileParsingList)
                         end
                     end
                 end
               else
-                name <- parse_symbol_suffix f [46] ;;
+                name <-- liftR (parse_symbol_suffix f [46]) ;;
                 parse_list f terminator (acc ++ [symbol_value name])
             else
-              ov <- next_value f ;;
+              ov <-- next_value f ;;
               match ov with
-              | None => peek_error EofWhileParsingValue
+              | None => liftR (peek_error EofWhileParsingValue)
               | Some v => parse_list f terminator (acc ++ [v])
               end
         end
     end
-  with parse_vector (fuel : nat) (terminator : N) (acc : list value) : M (list value) :=
+  with parse_vector (fuel : nat) (terminator : N) (acc : list value) : PM (list value) :=
     match fuel with
-    | O => out_of_fuel
+    | O => pfail (XErr EFuel)
     | S f =>
-        o <- parse_whitespace f ;;
+        o <-- liftR (parse_whitespace f) ;;
         match o with
-        | None => peek_error EofWhileParsingVector
+        | None => liftR (peek_error EofWhileParsingVector)
         | Some c =>
             if is_closer c then
-              (if negb (c =? terminator) then peek_error MismatchedParenthesis else ret acc)
+              (if negb (c =? terminator) then liftR (peek_error MismatchedParenthesis) else pret acc)
             else
-              ov <- next_value f ;;
+              ov <-- next_value f ;;
               match ov with
-              | None => peek_error EofWhileParsingValue
+              | None => liftR (peek_error EofWhileParsingValue)
               | Some v => parse_vector f terminator (acc ++ [v])
               end
         end
     end.
 
   (* expect_value *)
-  Definition expect_value (fuel : nat) : M value :=
-    o <- next_value fuel ;;
-    match o with Some v => ret v | None => peek_error EofWhileParsingValue end.
+  Definition expect_value (fuel : nat) : PM value :=
+    o <-- next_value fuel ;;
+    match o with Some v => pret v | None => liftR (peek_error EofWhileParsingValue) end.
 
   (* ---- the location-tracking duplicate ---- *)
 
@@ -447,17 +478,29 @@ Section Parser.
                       (SPrim quote_span)
                       (SCons (info_span qi) qi (SPrim (mk_span qend qend))) |}.
 
-  Fixpoint next_datum (fuel : nat) : M (option datum) :=
+  (* Datum::cons / the Null case, from what parse_list_meta collected *)
+  Definition list_datum (l : list datum * option datum) (start e_pos : pos) : datum :=
+    match l with
+    | ([], _) => prim_datum Null start e_pos
+    | (d1 :: ds, tail) =>
+        let tail_meta := match tail with Some t => dinfo t | None => null_meta end in
+        let tail_val := match tail with Some t => dvalue t | None => Null end in
+        let '(m0, m1) := list_meta (dinfo d1) (map dinfo ds) tail_meta in
+        {| dvalue := build (map dvalue (d1 :: ds)) tail_val;
+           dinfo := SCons (mk_span start e_pos) m0 m1 |}
+    end.
+
+  Fixpoint next_datum (fuel : nat) : PM (option datum) :=
     match fuel with
-    | O => out_of_fuel
+    | O => pfail (XErr EFuel)
     | S f =>
-        o <- parse_whitespace f ;;
+        o <-- liftR (parse_whitespace f) ;;
         match o with
-        | None => ret None
+        | None => pret None
         | Some peek_b =>
-            start <- position ;;
-            tok <- parse_token f peek_b ;;
-            let prim v := (e <- position ;; ret (Some (prim_datum v start e))) in
+            start <-- liftR position ;;
+            tok <-- liftR (parse_token f peek_b) ;;
+            let prim v := (e <-- liftR position ;; pret (Some (prim_datum v start e))) in
             match tok with
             | TNil => prim Nil
             | TNull => prim Null
@@ -468,111 +511,104 @@ Section Parser.
             | TKeyword s => prim (Keyword s)
             | TString s => prim (String s)
             | TBytes b => prim (Bytes b)
-            | TByteVecOpen close => b <- parse_byte_list f close ;; prim (Bytes b)
+            | TByteVecOpen close => b <-- liftR (parse_byte_list f close) ;; prim (Bytes b)
             | TVecOpen close =>
-                enter_nesting ;;;
-                r <- attempt (parse_vector_meta f close []) ;;
-                inc_depth ;;;
-                e <- attempt (end_seq f close) ;;
-                els <- both r e ;;
-                e_pos <- position ;;
-                ret (Some {| dvalue := Vector (map dvalue els);
-                             dinfo := SVec (mk_span start e_pos) (map dinfo els) |})
+                enter_nesting ;;;;
+                r <-- attempt (parse_vector_meta f close []) ;;
+                inc_depth ;;;;
+                e <-- attempt (liftR (end_seq f close)) ;;
+                els <-- both r e ;;
+                e_pos <-- liftR position ;;
+                pret (Some {| dvalue := Vector (map dvalue els);
+                              dinfo := SVec (mk_span start e_pos) (map dinfo els) |})
             | TListOpen close =>
-                enter_nesting ;;;
-                r <- attempt (parse_list_meta f close []) ;;
-                inc_depth ;;;
-                e <- attempt (end_seq f close) ;;
-                l <- both r e ;;
-                e_pos <- position ;;
-                match l with
-                | ([], _) => ret (Some (prim_datum Null start e_pos))
-                | (d1 :: ds, tail) =>
-                    let tail_meta := match tail with Some t => dinfo t | None => null_meta end in
-                    let tail_val := match tail with Some t => dvalue t | None => Null end in
-                    let '(m0, m1) := list_meta (dinfo d1) (map dinfo ds) tail_meta in
-                    ret (Some {| dvalue := build (map dvalue (d1 :: ds)) tail_val;
-                                 dinfo := SCons (mk_span start e_pos) m0 m1 |})
-                end
+                enter_nesting ;;;;
+                r <-- attempt (parse_list_meta f close []) ;;
+                inc_depth ;;;;
+                e <-- attempt (liftR (end_seq f close)) ;;
+                l <-- both r e ;;
+                e_pos <-- liftR position ;;
+                pret (Some (list_datum l start e_pos))
             | TQuotation name =>
-                token_end <- position ;;
-                enter_nesting ;;;
-                r <- attempt (next_datum f) ;;
-                inc_depth ;;;
-                o <- lift r ;;
+                token_end <-- liftR position ;;
+                enter_nesting ;;;;
+                r <-- attempt (next_datum f) ;;
+                inc_depth ;;;;
+                o <-- lift r ;;
                 match o with
-                | Some d => ret (Some (quotation_datum name d (mk_span start token_end)))
-                | None => peek_error EofWhileParsingList
+                | Some d => pret (Some (quotation_datum name d (mk_span start token_end)))
+                | None => liftR (peek_error EofWhileParsingList)
                 end
             end
         end
     end
   with parse_list_meta (fuel : nat) (terminator : N) (acc : list datum)
-       : M (list datum * option datum) :=
+       : PM (list datum * option datum) :=
     match fuel with
-    | O => out_of_fuel
+    | O => pfail (XErr EFuel)
     | S f =>
-        o <- parse_whitespace f ;;
+        o <-- liftR (parse_whitespace f) ;;
         match o with
-        | None => peek_error EofWhileParsingList
+        | None => liftR (peek_error EofWhileParsingList)
         | Some c =>
             if is_closer c then
-              (if negb (c =? terminator) then peek_error MismatchedParenthesis
-               else ret (acc, None))
+              (if negb (c =? terminator) then liftR (peek_error MismatchedParenthesis)
+               else pret (acc, None))
             else if c =? 46 then
-              start <- position ;;
-              eat_char ;;;
-              nx <- peek_or_null ;;
+              start <-- liftR position ;;
+              nx <-- liftR (eat_char ;;; peek_or_null) ;;
               if (nx =? 0) || is_delimiter nx then
                 match acc with
-                | [] => peek_error ExpectedSomeValue
+                | [] => liftR (peek_error ExpectedSomeValue)
                 | _ =>
-                    od <- next_datum f ;;
+                    od <-- next_datum f ;;
                     match od with
-                    | None => peek_error EofWhileParsingValue
+                    | None => liftR (peek_error EofWhileParsingValue)
                     | Some cdr =>
-                        o2 <- parse_whitespace f ;;
+                        o2 <-- liftR (parse_whitespace f) ;;
                         match o2 with
-                        | Some c2 => if c2 =? terminator then ret (acc, Some cdr)
-                                     else peek_error TrailingCharacters
-                        | None => peek_error EofWhileParsingList
+                        | Some c2 => if c2 =? terminator then pret (acc, Some cdr)
+                                     else liftR (peek_error TrailingCharacters)
+                        | None => liftR (peek_error EofWhileParsingList)
                         end
                     end
                 end
               else
-                name <- parse_symbol_suffix f [46] ;;
-                e <- position ;;
+                name <-- liftR (parse_symbol_suffix f [46]) ;;
+                e <-- liftR position ;;
                 parse_list_meta f terminator (acc ++ [prim_datum (symbol_value name) start e])
             else
-              od <- next_datum f ;;
+              od <-- next_datum f ;;
               match od with
-              | None => peek_error EofWhileParsingValue
+              | None => liftR (peek_error EofWhileParsingValue)
               | Some d => parse_list_meta f terminator (acc ++ [d])
               end
         end
     end
-  with parse_vector_meta (fuel : nat) (terminator : N) (acc : list datum) : M (list datum) :=
+  with parse_vector_meta (fuel : nat) (terminator : N) (acc : list datum) : PM (list datum) :=
     match fuel with
-    | O => out_of_fuel
+    | O => pfail (XErr EFuel)
     | S f =>
-        o <- parse_whitespace f ;;
+        o <-- liftR (parse_whitespace f) ;;
         match o with
-        | None => peek_error EofWhileParsingVector
+        | None => liftR (peek_error EofWhileParsingVector)
         | Some c =>
             if is_closer c then
-              (if negb (c =? terminator) then peek_error MismatchedParenthesis else ret acc)
+              (if negb (c =? terminator) then liftR (peek_error MismatchedParenthesis) else pret acc)
             else
-              od <- next_datum f ;;
+              od <-- next_datum f ;;
               match od with
-              | None => peek_error EofWhileParsingValue
+              | None => liftR (peek_error EofWhileParsingValue)
               | Some d => parse_vector_meta f terminator (acc ++ [d])
               end
         end
     end.
 
-  Definition expect_datum (fuel : nat) : M datum :=
-    o <- next_datum fuel ;;
-    match o with Some d => ret d | None => peek_error EofWhileParsingValue end.
+  Definition expect_datum (fuel : nat) : PM datum :=
+    o <-- next_datum fuel ;;
+    match o with Some d => pret d | None => liftR (peek_error EofWhileParsingValue) end.
+
+  Definition expect_end_p (fuel : nat) : PM unit := liftR (expect_end fuel).
 
   (* ---- entry points ---- *)
 
@@ -585,27 +621,27 @@ Section Parser.
   Definition fuel_for (inp : list event) : nat := (3 * length inp + 600)%nat.
 
   (* from_trait: expect_value then expect_end *)
-  Definition from_trait (k : src_kind) (inp : list event) : res value :=
+  Definition from_trait (k : src_kind) (inp : list event) : pres value :=
     let fuel := fuel_for inp in
-    fst ((v <- expect_value fuel ;; expect_end fuel ;;; ret v) (init_state k inp)).
+    fst ((v <-- expect_value fuel ;; expect_end_p fuel ;;;; pret v) (init_state k inp)).
 
   (* datum::from_trait *)
-  Definition datum_from_trait (k : src_kind) (inp : list event) : res datum :=
+  Definition datum_from_trait (k : src_kind) (inp : list event) : pres datum :=
     let fuel := fuel_for inp in
-    fst ((d <- expect_datum fuel ;; expect_end fuel ;;; ret d) (init_state k inp)).
+    fst ((d <-- expect_datum fuel ;; expect_end_p fuel ;;;; pret d) (init_state k inp)).
 
   (* One call of the public API on a parser, as used in call histories. *)
   Inductive call := CallNextValue | CallNextDatum | CallExpectValue | CallExpectDatum | CallExpectEnd.
   Inductive call_result :=
-  | RValue (o : option value) | RDatum (o : option datum) | RUnit | RErr (e : perr).
+  | RValue (o : option value) | RDatum (o : option datum) | RUnit | RErr (e : xerr).
 
   Definition run_call (fuel : nat) (c : call) (s : pstate) : call_result * pstate :=
     match c with
-    | CallNextValue => match next_value fuel s with (Ok o, s') => (RValue o, s') | (Err e, s') => (RErr e, s') end
-    | CallNextDatum => match next_datum fuel s with (Ok o, s') => (RDatum o, s') | (Err e, s') => (RErr e, s') end
-    | CallExpectValue => match expect_value fuel s with (Ok v, s') => (RValue (Some v), s') | (Err e, s') => (RErr e, s') end
-    | CallExpectDatum => match expect_datum fuel s with (Ok d, s') => (RDatum (Some d), s') | (Err e, s') => (RErr e, s') end
-    | CallExpectEnd => match expect_end fuel s with (Ok _, s') => (RUnit, s') | (Err e, s') => (RErr e, s') end
+    | CallNextValue => match next_value fuel s with (POk o, s') => (RValue o, s') | (PErr e, s') => (RErr e, s') end
+    | CallNextDatum => match next_datum fuel s with (POk o, s') => (RDatum o, s') | (PErr e, s') => (RErr e, s') end
+    | CallExpectValue => match expect_value fuel s with (POk v, s') => (RValue (Some v), s') | (PErr e, s') => (RErr e, s') end
+    | CallExpectDatum => match expect_datum fuel s with (POk d, s') => (RDatum (Some d), s') | (PErr e, s') => (RErr e, s') end
+    | CallExpectEnd => match expect_end_p fuel s with (POk _, s') => (RUnit, s') | (PErr e, s') => (RErr e, s') end
     end.
 
   Fixpoint run_history (fuel : nat) (cs : list call) (s : pstate) : list call_result :=
@@ -616,24 +652,26 @@ Section Parser.
 
   (* value_iter / datum_iter / Iterator for Parser: next() = next_value().transpose();
      collected up to [n] items or the end *)
-  Fixpoint iterate_values (fuel : nat) (n : nat) (s : pstate) : list (res value) :=
+  Fixpoint iterate_values (fuel : nat) (n : nat) (s : pstate) : list (pres value) :=
     match n with
     | O => []
     | S k =>
         match next_value fuel s with
-        | (Ok None, _) => []
-        | (Ok (Some v), s') => Ok v :: iterate_values fuel k s'
-        | (Err e, s') => Err e :: iterate_values fuel k s'
+        | (POk None, _) => []
+        | (POk (Some v), s') => POk v :: iterate_values fuel k s'
+        | (PErr e, s') => PErr e :: iterate_values fuel k s'
         end
     end.
-  Fixpoint iterate_datums (fuel : nat) (n : nat) (s : pstate) : list (res datum) :=
+  Fixpoint iterate_datums (fuel : nat) (n : nat) (s : pstate) : list (pres datum) :=
     match n with
     | O => []
     | S k =>
         match next_datum fuel s with
-        | (Ok None, _) => []
-        | (Ok (Some d), s') => Ok d :: iterate_datums fuel k s'
-        | (Err e, s') => Err e :: iterate_datums fuel k s'
+        | (POk None, _) => []
+        | (POk (Some d), s') => POk d :: iterate_datums fuel k s'
+        | (PErr e, s') => PErr e :: iterate_datums fuel k s'
         end
     end.
 End Parser.
+Arguments POk {A} a.
+Arguments PErr {A} e.
